@@ -40,7 +40,12 @@ DCONF = {
     # document markers as words: roots, keys and values of a root block mapping, items; at the start of the scalar and at fold points
     'markers': dict(DBASE, EmptyColls=False, MaxDocs=2, MaxEvents=11, Vs=['word', 'dashkey', 'dotsfold'], Widths=[5],
                     DXs=[False], EXs=[False]),
+    # documents that differ in their %TAG tables, later documents without directives that use the handles
+    'handles': dict(DBASE, Vs=['word'], STs=['', 'core', 'local', 'st', 'bt'], SIs=['ff'], DTs=['', 'hs', 'hb'], DXs=[False], EXs=[False],
+                    FSs=[], MaxDocs=2, MaxEvents=10),
     # thorough
+    'handles+': dict(DBASE, Vs=['word'], STs=['', 'core', 'local', 'st', 'bt', 'hdl'], SIs=['ff', 'tf'], DTs=['', 'hs', 'hb', 'h1'], DXs=[False, True],
+                     EXs=[False], FSs=[], MaxDocs=3),
     'markers+': dict(DBASE, EmptyColls=False, MaxDocs=2, MaxEvents=11, Vs=['word', 'docsep', 'dashkey', 'dotkey', 'dotsfold'],
                      Widths=[5, 80], DXs=[False], EXs=[False]),
     'open+':  dict(DBASE, Ss=['none', 'literal', 'folded', 'single'], Vs=['empty', 'word', 'nl', 'nlnl'], MaxDocs=3, EXs=[False]),
@@ -52,7 +57,7 @@ DCONF = {
     'four+':  dict(DBASE, Vs=['empty', 'nlnl'], MaxDocs=4, MaxEvents=18, FSs=[], EXs=[False]),
     'canon+': dict(DBASE, Canons=[True, False], LBs=['rn', 'r'], MaxDocs=3, DXs=[False], FSs=[]),
 }
-DTIERS = {'quick': ['open', 'roots', 'dirs', 'canon', 'markers'], 'thorough': ['open+', 'ends+', 'roots+', 'dirs+', 'dirs3+', 'four+', 'canon+', 'markers+']}
+DTIERS = {'quick': ['open', 'roots', 'dirs', 'canon', 'markers', 'handles'], 'thorough': ['open+', 'ends+', 'roots+', 'dirs+', 'dirs3+', 'four+', 'canon+', 'markers+', 'handles+']}
 KEEP = r'outcome \|-> "done"'
 EMIT_PAIRS = [('python', 'Dumper', 'python', 'Loader'), ('python', 'Dumper', 'libyaml', 'CLoader'),
               ('libyaml', 'CDumper', 'libyaml', 'CLoader'), ('libyaml', 'CDumper', 'python', 'Loader')]
@@ -297,8 +302,12 @@ def run_list(yaml, tools, events, opts, rnd, out, sample, origin, paths=('emit',
             nodes = nodes_of(events)
         except Exception:
             nodes = None
+        otags = sorted([ep.cps(h), ep.cps(p)] for h, p in (ds[0].tags or {}).items())
+
+        def with_otags(docs):           # the %TAG option of the call, as an (uncompared) attribute of the input documents
+            return [[dict(d[0], otags=otags)] + d[1:] for d in docs] if otags else docs
         if nodes is not None and len(nodes) == n:
-            din = [node_doc(yaml, x) for x in nodes]
+            din = with_otags([node_doc(yaml, x) for x in nodes])
             for em, D, pa, L in NODE_PAIRS[:out.get('npairs', 4)]:
                 runs.append(('serialize', em, D, pa, L, nodes, din, lopts, None))
                 if shared(nodes):
@@ -308,7 +317,7 @@ def run_list(yaml, tools, events, opts, rnd, out, sample, origin, paths=('emit',
             except Exception:
                 values = None
             if values is not None and len(values) == n and all(plain_value(x, 0) for x in values):
-                din = [value_doc(x) for x in values]
+                din = with_otags([value_doc(x) for x in values])
                 for em, D, pa, L in VALUE_PAIRS[:out.get('npairs', 4)]:
                     runs.append(('dump', em, D, pa, L, values, din, dict(lopts, sort_keys=False), None))
                     if shared(values):
